@@ -247,4 +247,31 @@ theorem input_allWnd_post (k : Kcp) (data : Bytes) (regular ackNoDelay : Bool) (
       · rename_i h2; rw [if_neg h2] at hp
         exact inputFin_allWnd_post _ _ _ _ hp
 
+/-! ### all operations -/
+
+/-- the datagrams an operation hands to `output` -/
+def stepOuts (k : Kcp) : Op → List Bytes
+  | .input d reg nd now => (k.input d reg nd now).outs
+  | .flush full now => (k.flush full now).outs
+  | .update now => (k.update now).outs
+  | _ => []
+
+/-- whether the model recorded a slice-bounds panic of the real code during the operation -/
+def stepPanic (k : Kcp) : Op → Bool
+  | .send b => (k.send b).panic
+  | .input d reg nd now => (k.input d reg nd now).panic
+  | .flush full now => (k.flush full now).panic
+  | .update now => (k.update now).panic
+  | _ => false
+
+/-- every datagram emitted by any operation consists of whole segments that all advertise
+`wnd_unused()` of the state the operation leaves behind -/
+theorem step_allWnd (k : Kcp) (op : Op) (hp : stepPanic k op = false) :
+    ∀ o ∈ stepOuts k op, AllWnd (wndUnused (step k op)) o := by
+  cases op with
+  | input d reg nd now => exact input_allWnd_post k d reg nd now hp
+  | flush full now => exact flush_allWnd_post k full now hp
+  | update now => exact update_allWnd_post k now hp
+  | _ => intro o hm; exact absurd hm List.not_mem_nil
+
 end KcpVerif.Kcp
